@@ -24,10 +24,10 @@ E = []
 PRELUDES = {
     # p1 (v1) and p3 (v2) registered, active at height 6; irreversibility bookkeeping starts at 7
     "basic": dict(su=12, blocks=[[it("Reg", "p1"), it("Reg", "p3")], E, E, E, E, E]),
-    # stakes, a top-up, a v2 vote that expires at 11, a v1 vote, one sponsored block
+    # stakes, a top-up, a v2 vote that expires at 10, a v1 vote, one sponsored block
     "votes": dict(su=14, blocks=[[it("Reg", "p1"), it("Reg", "p3")], [it("Stake", a="a1", x=3)], [it("Stake", a="a2", x=2)],
                                  [it("TopUp", "p1", x=6)], [it("Reg", "p2")], E,
-                                 [it("Vote2", "p3", "a1", 1, 10), it("Vote1", "p1", "a2")], [it("Sponsor", "p3")]]),
+                                 [it("Vote2", "p3", "a1", 1, 9), it("Vote1", "p1", "a2")], [it("Sponsor", "p3")]]),
     # p1 made inactive (emergency penalty 5), tops up and asks for activation; p2 pending
     "penalty": dict(su=14, blocks=[[it("Reg", "p1"), it("Reg", "p3")], E, E, E, [it("Reg", "p2")], E,
                                    [it("Inact", "p1")], [it("TopUp", "p1", x=6)], [it("Act", "p1")]]),
